@@ -260,9 +260,14 @@ fn cmd_run(a: &Args) -> Result<i32, String> {
     // determinism self-check, in-process part (the cross-process part is `check selftest`)
     let det_n = if tier == "quick" { 1500 } else { 6000 };
     let (det_runs, det_bad) = genreplay(p, a.seed, det_n.min(runs));
-    if !det_bad.is_empty() {
-        return Err(format!("generate/replay digests differ for runs {:?}: the simulator is not deterministic", &det_bad[..det_bad.len().min(10)]));
-    }
+    let det_msg: Option<String> = if det_bad.is_empty() {
+        None
+    } else {
+        Some(format!(
+            "generate/replay digests differ for runs {:?}: some nondeterminism the simulator does not own reached these runs",
+            &det_bad[..det_bad.len().min(10)]
+        ))
+    };
 
     // violations: minimise the smallest failing run of each clause, write replay files
     let table = p.table();
@@ -339,7 +344,7 @@ fn cmd_run(a: &Args) -> Result<i32, String> {
             "clause_evaluations": agg.clauses,
             "violations_detail": violations_json,
             "known_findings_reported": known_lines.len(),
-            "determinism": {"generate_vs_replay_vs_traced_runs_compared": det_runs, "mismatches": 0, "batch_digest": format!("{:016x}/{:016x}", agg.digest_xor, agg.digest_sum), "note": "cross-process 1-vs-16-worker comparison: /verif/check selftest"},
+            "determinism": {"generate_vs_replay_vs_traced_runs_compared": det_runs, "mismatches": det_bad.len(), "batch_digest": format!("{:016x}/{:016x}", agg.digest_xor, agg.digest_sum), "note": "cross-process 1-vs-16-worker comparison: /verif/check selftest"},
             "components_real": p.real,
             "components_stub": p.stubs,
             "threads": a.threads,
@@ -367,6 +372,15 @@ fn cmd_run(a: &Args) -> Result<i32, String> {
     }
     for l in &violation_lines {
         println!("{}", l);
+    }
+    if let Some(msg) = det_msg {
+        if violation_lines.is_empty() {
+            // nothing else to report: the simulator itself cannot be trusted
+            return Err(msg);
+        }
+        // With unlisted violations present the likelier cause is the code under test (e.g. a change
+        // that iterates a fresh hash map): the violations are the useful answer; say so.
+        println!("simio: WARNING {} — violations are reported anyway; a replay may not reproduce exactly", msg);
     }
     Ok(if violation_lines.is_empty() { 0 } else { 1 })
 }
